@@ -58,9 +58,10 @@ RULE = ("argument forms: every integer option (size, num, num_visible / num_hidd
         "(plain and rotated) with the accepted target e_k, on all three state classes with random parameters, against numpy references built "
         "from the parameters (brute-force partial trace, dense np.kron); (d'') negative / beyond-int64 / >62-bit arguments of subspace_vector "
         "and generate_hilbert_space as outcome classes; (e) random data files (N >= 1, n >= 1: one-row and one-column files are ordinary cases "
-        "since F16; one 60 000-row file in the thorough tier; basis "
+        "since F18; one 60 000-row file in the thorough tier; basis "
         "alphabets, many-digit and float32-midpoint targets, comment/blank lines, tabs, CRLF, one-row / one-column / empty / ragged / "
-        "unparsable files) written to a temp dir and read back through load_data / load_data_DM; (f) extract_refbasis_samples on "
+        "unparsable files) written to a temp dir and read back through load_data / load_data_DM (paths positionally, by the documented keywords, "
+        "only the files given, or relative to the working directory); (f) extract_refbasis_samples on "
         "random bases patterns (none / all / some all-Z rows, multi-letter tokens, duplicate sample rows, wrong shapes). "
         "non-trivial: space n>=2; file case with N>=2 and n>=2 rows/columns and a decorated or many-digit file; extract case with some "
         "but not all rows all-Z; distinct by hash of the case")
@@ -147,6 +148,37 @@ def get_state(kind, nv):
     if key not in _STATES:
         _STATES[key] = new_state(kind, nv)
     return _STATES[key]
+
+
+def index_public(states):
+    """the index of basis vectors through PUBLIC calls only: `rotate_psi_inner_prod` in the all-Z basis looks the given states up in a
+    user-supplied wavefunction; with psi[k] = k the amplitude it returns IS the position the library assigns to the state"""
+    from qucumber.utils.unitaries import rotate_psi_inner_prod
+
+    t = states if states.dim() == 2 else states.unsqueeze(0)
+    n = t.shape[-1]
+    psi = torch.zeros(2, 2 ** n, dtype=torch.double)
+    psi[0] = torch.arange(2 ** n, dtype=torch.double)
+    out = rotate_psi_inner_prod(get_state("pos", n), "Z" * n, t.to(torch.double), psi=psi)[0]
+    return out if states.dim() == 2 else out[0]
+
+
+PUBLIC_INDEX_MAX = 16
+
+
+def index_fn(ctx, n):
+    """the library's vector -> index map: the helper the property anchors (`unitaries._convert_basis_element_to_index`, a private name), or -
+    when a rewrite has renamed / inlined it - the public route `index_public` (n <= 16; None beyond: the case is counted and skipped)"""
+    from qucumber.utils import unitaries as U
+
+    f = getattr(U, "_convert_basis_element_to_index", None)
+    if f is not None:
+        return f
+    ctx.count("index:private-helper-missing")
+    if 1 <= n <= PUBLIC_INDEX_MAX:
+        return index_public
+    ctx.count("index:private-helper-missing:skipped(n>16)")
+    return None
 
 
 def eff_size(size, nv):
@@ -321,7 +353,7 @@ def space_case(ctx, case):
     ctx.count(f"space:eff_size={s}")
     ctx.count("space:size_arg=" + ("None" if size is None else "0" if size == 0 else "given"))
     ctx.case({"k": "space", **case}, nontrivial=s >= 2, sample={"op": "generate_hilbert_space", "state": kind, "nv": nv, "size": size})
-    from qucumber.utils.unitaries import _convert_basis_element_to_index as conv
+    conv = index_fn(ctx, s)
     try:
         sz_arg = as_form(size, case.get("size_form"))
         kw = dev_kw(case.get("device_form"))
@@ -370,10 +402,11 @@ def space_case(ctx, case):
         bad = [k for k, r in zip(ks, rows) if r != bits_of(k, s)]
         ctx.oracle("sampled rows == big-endian bits", not bad, case, sig="space/order", theorem=TH["space"],
                    detail={"bad_rows": bad[:5]})
-    idx = conv(sp[ks] if not full else sp)
-    idxl = [int(x) for x in idx.tolist()]
-    ctx.oracle("index(row k) == k", idxl == ks and all(float(x) == int(x) for x in idx.tolist()), case, sig="index/roundtrip",
-               theorem=TH["index"], detail={"first_bad": next((k for k, i in zip(ks, idxl) if k != i), None)})
+    if conv is not None:
+        idx = conv(sp[ks] if not full else sp)
+        idxl = [int(x) for x in idx.tolist()]
+        ctx.oracle("index(row k) == k", idxl == ks and all(float(x) == int(x) for x in idx.tolist()), case, sig="index/roundtrip",
+                   theorem=TH["index"], detail={"first_bad": next((k for k, i in zip(ks, idxl) if k != i), None)})
     # subspace_vector(k, size) == row k   (a subset when the space is big)
     sub_ks = ks if len(ks) <= 64 else sorted(set(random.Random(case.get("ks_seed", 0) + 1).sample(ks, 48) + [0, ks[-1], ks[len(ks) // 2]]))
     subs = []
@@ -393,11 +426,13 @@ def space_case(ctx, case):
         if full:
             m = ctx.driver.call("c19.space", size=size, nv=nv)
             ctx.point("generate_hilbert_space", "property", rows, m.get("rows"), case, exact=True, sig="space/order", theorem=TH["space"])
-            ctx.point("index of every row", "property", idxl, m.get("index"), case, exact=True, sig="index/roundtrip", theorem=TH["index"])
+            if conv is not None:
+                ctx.point("index of every row", "property", idxl, m.get("index"), case, exact=True, sig="index/roundtrip", theorem=TH["index"])
         m2 = ctx.driver.call("c19.rows", size=size, nv=nv, ks=ks if not full else sub_ks)
         if not full:
             ctx.point("generate_hilbert_space rows", "property", rows, m2.get("rows"), case, exact=True, sig="space/order", theorem=TH["space"])
-            ctx.point("index of sampled rows", "property", idxl, m2.get("index"), case, exact=True, sig="index/roundtrip", theorem=TH["index"])
+            if conv is not None:
+                ctx.point("index of sampled rows", "property", idxl, m2.get("index"), case, exact=True, sig="index/roundtrip", theorem=TH["index"])
             msub = [m2["sub"][ks.index(k)] for k in sub_ks]
         else:
             msub = m2["sub"]
@@ -431,9 +466,11 @@ def subspace_case(ctx, case):
 
 def index_case(ctx, case):
     """_convert_basis_element_to_index on a batch (2-D) and on each row (1-D call form)."""
-    from qucumber.utils.unitaries import _convert_basis_element_to_index as conv
     states = case["states"]
     n = len(states[0]) if states else 0
+    conv = index_fn(ctx, n)
+    if conv is None:
+        return
     ctx.case({"k": "index", **case}, nontrivial=n >= 2 and any(any(r) for r in states) and not all(all(r) for r in states),
              sample={"op": "_convert_basis_element_to_index", "n": n, "batch": len(states), "first": states[0] if states else None})
     ctx.count(f"index:n={n}")
@@ -459,7 +496,7 @@ def index_case(ctx, case):
     if len(states) >= 2:
         a, b = states[0], states[1]
         ia, ib = want[0], want[1]
-        iab = int(conv(torch.tensor(a + b, dtype=torch.double))) if 2 * n <= 52 else None
+        iab = int(conv(torch.tensor(a + b, dtype=torch.double))) if 2 * n <= (52 if conv is not index_public else PUBLIC_INDEX_MAX) else None
         if iab is not None:
             ctx.oracle("idx(a++b) == idx(a)*2^|b| + idx(b)", iab == ia * 2 ** len(b) + ib, case, sig="index/concat", theorem=TH["kron"])
     if ctx.driver is not None:
@@ -1099,7 +1136,7 @@ def num_expect(text, ndmin=0):
 def expect_load(case):
     """independent statement of what load_data / load_data_DM must return for the given file texts"""
     f = case["files"]
-    st, s = num_expect(f["samples"], ndmin=2)     # F16: the samples keep their (N, n) shape, also for N = 1 or n = 1
+    st, s = num_expect(f["samples"], ndmin=2)     # F18: the samples keep their (N, n) shape, also for N = 1 or n = 1
     if st == "error":
         return {"error": s}
     items = [{"t": "num", "a": s}]
@@ -1129,13 +1166,16 @@ def expect_load(case):
             if shape(parts["re"]) != shape(parts["im"]):
                 return {"error": "RuntimeError"}
             items.append({"t": "cplx", "re": parts["re"], "im": parts["im"]})
-    for key, nd in (("tr_bases", 2), ("bases", 1)):   # per-sample bases: (N, n) table (F16); list of bases: ndmin=1 (word form of tutorial 3)
+    for key, nd in (("tr_bases", 2), ("bases", 1)):   # per-sample bases: (N, n) table (F18); list of bases: ndmin=1 (word form of tutorial 3)
         if f.get(key) is not None:
             st, p = squeeze_expect(indep_parse(f[key]), ndmin=nd)
             if st == "error":
                 return {"error": p}
             items.append({"t": "str", "a": p})
     return {"items": items}
+
+
+LOAD_HOW = ("pos", "pos", "kw", "given", "trim", "rel")
 
 
 def load_case(ctx, case, report=None):
@@ -1154,14 +1194,37 @@ def load_case(ctx, case, report=None):
             with open(p, "w", newline="", encoding="ascii") as fh:
                 fh.write(text)
             paths[key] = p
+    # call form (case key "how"; audit2-4 C19 residue 2): all five / four paths positionally (default), every path by its documented keyword,
+    # only the files that exist (first positionally, the others by keyword; trailing defaults omitted), or paths RELATIVE to the caller's
+    # working directory
+    how = case.get("how", "pos")
+    ctx.count(f"load:call_form={how}")
+    if case["fn"] == "load_data":
+        fn, names, keys = qdata.load_data, ("tr_samples_path", "tr_psi_path", "tr_bases_path", "bases_path"), ("samples", "psi", "tr_bases", "bases")
+    else:
+        fn, names, keys = qdata.load_data_DM, ("tr_samples_path", "tr_mtx_real_path", "tr_mtx_imag_path", "tr_bases_path", "bases_path"), ("samples", "re", "im", "tr_bases", "bases")
+    vals = [paths.get(k) for k in keys]
+    old_cwd = None
     try:
-        if case["fn"] == "load_data":
-            res = qdata.load_data(paths["samples"], paths.get("psi"), paths.get("tr_bases"), paths.get("bases"))
+        if how == "rel":
+            old_cwd = os.getcwd()
+            os.chdir(d)
+            vals = [None if v is None else os.path.basename(v) for v in vals]
+        if how == "kw":
+            res = fn(**dict(zip(names, vals)))
+        elif how == "given":
+            res = fn(vals[0], **{n: v for n, v in zip(names[1:], vals[1:]) if v is not None})
+        elif how == "trim":
+            last = max(i for i, v in enumerate(vals) if v is not None)
+            res = fn(*vals[: last + 1])
         else:
-            res = qdata.load_data_DM(paths["samples"], paths.get("re"), paths.get("im"), paths.get("tr_bases"), paths.get("bases"))
+            res = fn(*vals)
         impl = {"items": canon_items(res)}
     except Exception as e:  # noqa: BLE001
         impl = {"error": errname(e)}
+    finally:
+        if old_cwd is not None:
+            os.chdir(old_cwd)
     want = expect_load(case)
     rc = case if report is None else report
 
@@ -1230,7 +1293,7 @@ def load_case(ctx, case, report=None):
 
 def logical_items(case):
     """the tables the generator meant to write, "exactly as written" — stated WITHOUT np.squeeze: an N x n table of samples / per-sample
-    bases is the 2-D array of shape (N, n) whatever N, n >= 1 are (F16); a target matrix is its D x D table (D = 2^n >= 2); the psi
+    bases is the 2-D array of shape (N, n) whatever N, n >= 1 are (F18); a target matrix is its D x D table (D = 2^n >= 2); the psi
     target is the 2 x rows real-pair layout; the list of bases (`bases_path`) is a 2-D table, or — one basis WORD per line, the form of
     tutorial 3 (and, residually, a single row of letters) — the 1-D list of the tokens."""
     lg = case["logical"]
@@ -1577,7 +1640,7 @@ def gen_extract_case(rng):
 def chain_case(ctx, rng):
     """end to end: files -> load_data -> extract_refbasis_samples, vs the logical tables"""
     from qucumber.utils import data as qdata
-    N, n = rng.choice([1, rng.randrange(2, 10), rng.randrange(2, 10)]), rng.choice([1, rng.randrange(2, 6), rng.randrange(2, 6)])   # single sample / single site included (F16)
+    N, n = rng.choice([1, rng.randrange(2, 10), rng.randrange(2, 10)]), rng.choice([1, rng.randrange(2, 6), rng.randrange(2, 6)])   # single sample / single site included (F18)
     stab, stoks = gen_samples(rng, N, n)
     rows = gen_bases_rows(rng, N, n, rng.choice(ALPHABETS), p_allz=rng.choice([0.3, 0.6, 1.0]))
     st, _ = render(rng, stoks)
@@ -1614,11 +1677,12 @@ def gen_index_states(rng, n, batch):
     return [[rng.randrange(2) for _ in range(n)] for _ in range(batch)]
 
 
-def run_all(ctx, thorough, scale=1):
+def run_all(ctx, thorough, scale=1, env=False):
+    """env=True: the reduced sweep of `env_run` (a handful of cases of EVERY call family, same generators)"""
     rng = ctx.rng
     kinds = ["pos", "cplx", "dm"]
     # ---- (a) full spaces
-    nmax = 12 if thorough else 8
+    nmax = 12 if thorough else (5 if env else 8)
     for n in range(1, nmax + 1):
         how = rng.choice(["size", "default", "zero"])
         case = {"kind": "space", "state": kinds[n % 3], "nv": n if how != "size" else rng.choice([n, 1, 3]), "full": True,
@@ -1627,20 +1691,20 @@ def run_all(ctx, thorough, scale=1):
         space_case(ctx, case)
     # every way of passing the size / device arguments, on small spaces: the form of `size` is forced (key "size_form"), the other options
     # (constructor sizes, gpu, the index of subspace_vector, keyword / positional) come from the case's streams
-    for sf in SIZE_SWEEP:
+    for sf in (SIZE_SWEEP[:2] if env else SIZE_SWEEP):
         for i, df in enumerate(DEVICE_FORMS):
             n = rng.randrange(1, 9)      # (up to 8: 2 ** size leaves np.int8 / np.uint8); half of the states have another number of visible units
             space_case(ctx, {"kind": "space", "state": rng.choice(kinds), "nv": n if i % 2 else (2 if n != 2 else 3), "full": True, "size": n, "pass_size": True,
                              "size_form": sf, "device_form": df, **form_seeds(rng)})
     # the DEFAULT size (num_visible as the constructor received it) with num_visible in every form, one by one (key "nv_form")
-    for nf in SIZE_SWEEP:
+    for nf in (SIZE_SWEEP[:1] if env else SIZE_SWEEP):
         for kd in kinds:
             n = rng.randrange(8, 11)
             how = rng.choice(["default", "zero", "omit"])
             space_case(ctx, {"kind": "space", "state": kd, "nv": n, "full": False, "size": 0 if how == "zero" else None, "pass_size": how != "omit",
                              "nsamp": 20, "ks_seed": rng.randrange(10 ** 9), "nv_form": nf, "device_form": rng.choice(DEVICE_FORMS), **form_seeds(rng)})
     # ---- sampled rows, n = 9/13 .. 20 (20 always: the boundary of the guard)
-    big = list(range(nmax + 1, 21))
+    big = [9, 14, 20] if env else list(range(nmax + 1, 21))
     for n in big:
         how = rng.choice(["size", "default"]) if n != 20 else ("size" if rng.random() < 0.5 else "default")
         case = {"kind": "space", "state": rng.choice(kinds), "nv": n if how == "default" else 2, "full": False,
@@ -1652,7 +1716,7 @@ def run_all(ctx, thorough, scale=1):
         space_case(ctx, {"kind": "space", "state": "pos", "nv": 3, "full": False, "size": 20, "nsamp": 100, **form_seeds(rng)})
     # ---- guard / default cases (malformed stream)
     for (size, nv) in [(21, 2), (None, 21), (0, 21), (22, 20), (64, 3), (0, 3), (None, 4), (1000, 2), (21, 21)] + \
-            [(rng.randrange(21, 40), rng.randrange(1, 6)) for _ in range(3 * scale)]:
+            [(rng.randrange(21, 40), rng.randrange(1, 6)) for _ in range(0 if env else 3 * scale)]:
         space_case(ctx, {"kind": "space", "state": rng.choice(kinds), "nv": nv, "size": size, "full": eff_size(size, nv) <= nmax, "nsamp": 20,
                          "device_form": rng.choice(DEVICE_FORMS), **form_seeds(rng)})
     # ---- (a') results handed out earlier are modified in place between calls
@@ -1660,10 +1724,10 @@ def run_all(ctx, thorough, scale=1):
         c = gen_alias_case(rng, thorough)
         c["how"] = how
         alias_case(ctx, c)
-    for _ in range((40 if thorough else 6) * scale):
+    for _ in range((40 if thorough else (2 if env else 6)) * scale):
         alias_case(ctx, gen_alias_case(rng, thorough))
     # ---- (b) subspace_vector
-    for _ in range((200 if thorough else 20) * scale):
+    for _ in range((200 if thorough else (5 if env else 20)) * scale):
         size = rng.choice([None, 0, rng.randrange(1, 21), rng.randrange(1, 41), rng.randrange(21, 61)])
         nv = rng.randrange(1, 8)
         s = eff_size(size, nv)
@@ -1672,11 +1736,11 @@ def run_all(ctx, thorough, scale=1):
         subspace_case(ctx, {"kind": "sub", "state": rng.choice(kinds), "nv": nv, "size": size, "nums": nums,
                             "device_form": rng.choice(DEVICE_FORMS), **form_seeds(rng)})
     # ---- (c) index
-    for _ in range((300 if thorough else 25) * scale):
+    for _ in range((300 if thorough else (6 if env else 25)) * scale):
         n = rng.choice([1, 2, 3, 4, 5, 6, 8, 10, 12, 16, 20, 24, 30])
         index_case(ctx, {"kind": "index", "states": gen_index_states(rng, n, rng.randrange(1, 9))})
     # ---- (d) kron ordering
-    for _ in range((100 if thorough else 12) * scale):
+    for _ in range((100 if thorough else (4 if env else 12)) * scale):
         n = rng.randrange(1, 5)
         D = 2 ** n
         g = lambda: rng.gauss(0, 1)  # noqa: E731
@@ -1687,32 +1751,33 @@ def run_all(ctx, thorough, scale=1):
             case["rho_im"] = [[g() for _ in range(D)] for _ in range(D)]
         kron_case(ctx, case)
     # ---- (d') one-hot at k through every producing / accepting entry point
-    for _ in range((150 if thorough else 24) * scale):
+    for _ in range((150 if thorough else (8 if env else 24)) * scale):
         onehot_case(ctx, gen_onehot_case(rng, thorough))
     # ---- (d'') out-of-domain integer arguments as outcome classes
     for c in [{"kind": "intarg", "state": "pos", "nv": 3, "num": -1, "size": 3}, {"kind": "intarg", "state": "dm", "nv": 2, "num": 5, "size": -1},
               {"kind": "intarg", "state": "cplx", "nv": 2, "num": 2 ** 63, "size": 4}, {"kind": "intarg", "state": "pos", "nv": 2, "num": 2 ** 62 + 1, "size": 65},
               {"kind": "intarg", "state": "pos", "nv": 4, "num": -2 ** 63, "size": 64}]:
         intarg_case(ctx, {**c, **form_seeds(rng)})
-    for _ in range((150 if thorough else 25) * scale):
+    for _ in range((150 if thorough else (5 if env else 25)) * scale):
         intarg_case(ctx, gen_intarg_case(rng))
     # ---- (e) files
     if thorough and scale == 1:
         big_file_case(ctx, {"kind": "bigfile", "seed": rng.randrange(1 << 30), "N": 60000})
-    for _ in range((2000 if thorough else 150) * scale):
+    for _ in range((2000 if thorough else (40 if env else 150)) * scale):
         c = gen_load_case(rng)
         c["kind"] = "load"
+        c["how"] = rng.choice(LOAD_HOW)
         load_case(ctx, c)
     # fixed double-rounding witness: via-double rounding gives 1.0, direct decimal->float32 rounding would give 1.0000001
     load_case(ctx, {"kind": "load", "fn": "load_data", "tags": ["double-rounding-witness"], "nontrivial": True, "logical": None,
                     "files": {"samples": "1 0\n0 1\n", "psi": "1.000000059604644775390625000001 0.5\n-1.000000059604644775390625000001 2\n",
                               "tr_bases": None, "bases": None}})
     # ---- (f) extract
-    for _ in range((1500 if thorough else 120) * scale):
+    for _ in range((1500 if thorough else (20 if env else 120)) * scale):
         c = gen_extract_case(rng)
         c["kind"] = "extract"
         extract_case(ctx, c)
-    for _ in range((40 if thorough else 10) * scale):
+    for _ in range((40 if thorough else (3 if env else 10)) * scale):
         chain_case(ctx, rng)
 
 
@@ -1721,6 +1786,21 @@ def run(ctx):
     try:
         run_all(ctx, ctx.tier == "thorough")
     finally:
+        cleanup()
+
+
+def env_run(ctx, env_name):
+    """the same property for a caller who changed a process-global setting (harness/common.py ENVS: default dtype float64, no_grad,
+    another working directory): a reduced sweep over EVERY call family of the property (Hilbert-space functions on all three state
+    classes, index helper, rotation helpers, one-hot family, both loaders, extract_refbasis_samples, the load -> extract chain), with
+    the states constructed INSIDE the environment (the cache of state objects is emptied first and restored afterwards)"""
+    saved = dict(_STATES)
+    _STATES.clear()
+    try:
+        run_all(ctx, False, env=True)
+    finally:
+        _STATES.clear()
+        _STATES.update(saved)
         cleanup()
 
 
